@@ -16,7 +16,11 @@ package main
 //	C07 sdec … <hexA>><hexB>[><hexC>…]           every stream is decoded (fresh Decoder each) into the SAME destination
 //	                                            variables, one per type; the answer describes the last stream
 //
-// points: inf | x;y   coordinates: base-field components in natural order (A0,A1 / B0.A0,B0.A1,B1.A0,B1.A1), hex
+// histories on ONE Decoder object: a single-stream sdec whose <hex> is the concatenation of segments written by
+// different Encoders (compressed / raw / per-point mixed frames); a type token `ty@slot` names the destination variable:
+// equal tokens share one variable along the calls (same Decoder AND same destination); the model ignores the slot
+//
+// points: inf | x;y  coordinates: base-field components in natural order (A0,A1 / B0.A0,B0.A1,B1.A0,B1.A1), hex
 // items:  u8:ff u16: u32: u64:  fr:<hex> fp:<hex>  g1:<pt> g2:<pt>  g1s:<pt>|<pt> (empty: -)  frs:a,b (empty: -)
 //         frss:a,b/c (empty list: =)  frsss:a,b/c+d (empty: ~)  u64s:  u64ss:
 
@@ -647,10 +651,22 @@ func c07Sdec(c *c07Curve, sub bool, chunk string, types []string, streams [][]by
 		return "bad-op"
 	}
 	// one destination variable per type, shared by all the streams of a history
+	// a token `ty@slot` names the destination: equal tokens share ONE variable along the calls made on one Decoder
 	vals := make([]any, len(types))
 	shows := make([]func() string, len(types))
+	slotV := map[string]any{}
+	slotS := map[string]func() string{}
 	for i, ty := range types {
-		vals[i], shows[i] = c07Target(c, ty)
+		if j := strings.IndexByte(ty, '@'); j >= 0 {
+			if v, ok := slotV[ty]; ok {
+				vals[i], shows[i] = v, slotS[ty]
+				continue
+			}
+			vals[i], shows[i] = c07Target(c, ty[:j])
+			slotV[ty], slotS[ty] = vals[i], shows[i]
+		} else {
+			vals[i], shows[i] = c07Target(c, ty)
+		}
 		if vals[i] == nil {
 			return "bad-op"
 		}
@@ -1282,6 +1298,8 @@ func (x *c07Gen) streamOps(first bool) {
 	}
 	// decode histories on re-used destinations
 	x.historyOps()
+	// call histories on ONE Decoder / ONE Encoder object
+	x.decoderHistoryOps()
 	// 4. adversarial length prefixes (capped: the decoder allocates before reading, finding iv)
 	for _, ty := range all {
 		if !strings.HasSuffix(ty, "s") && !strings.HasSuffix(ty, "v") && !strings.HasSuffix(ty, "sp") {
@@ -1846,6 +1864,107 @@ func (x *c07Gen) historyOps() {
 		default:
 			x.emitHist(true, x.chunk(), tys, sa, sb[:rg.intn(len(sb)+1)], sc)
 		}
+	}
+}
+
+// ---- call histories on ONE Decoder (and ONE Encoder) object: k successive values written by encoders of different
+// modes (compressed / raw / per-point mixed frames), G1 / G2 / other value types, slice lengths shrinking, equal and
+// growing along the calls. The stream is the concatenation of the segments; the model is pure: every call answers the
+// decode of its own segment and the reader offsets accumulate. Type tokens `ty@slot` additionally make equal tokens
+// share one destination variable (same Decoder AND same destination).
+func (x *c07Gen) decoderHistoryOps() {
+	c := x.c
+	rg := x.g.rng
+	groups := []*c07Group{c.g1}
+	if c.g2 != nil {
+		groups = append(groups, c.g2)
+	}
+	sty := func(g *c07Group) string { return strings.ToLower(g.name) + "s" }
+	// bytes of a point slice: 'c' / 'r' by the library's Encoder, 'm' hand-assembled with a coin per point
+	encS := func(g *c07Group, mode byte, ps []c07Pt) []byte {
+		switch mode {
+		case 'c':
+			return x.encode(false, []string{sty(g) + ":" + c07ShowPts(ps)})
+		case 'r':
+			return x.encode(true, []string{sty(g) + ":" + c07ShowPts(ps)})
+		}
+		b := []byte{0, 0, 0, byte(len(ps))}
+		for _, q := range ps {
+			if rg.coin() {
+				b = append(b, g.encRaw(q)...)
+			} else {
+				b = append(b, g.enc(q)...)
+			}
+		}
+		return b
+	}
+	pickMode := func(fav byte) byte {
+		switch rg.intn(6) {
+		case 0:
+			return 'm'
+		case 1:
+			return "cr"[rg.intn(2)]
+		}
+		return fav
+	}
+	slot := func(tys []string) []string {
+		// equal types share a destination with probability 1/2
+		r := append([]string{}, tys...)
+		if rg.coin() {
+			for i := range r {
+				r[i] += "@0"
+			}
+		}
+		return r
+	}
+	// 1. systematic: slice A (mostly compressed, non-infinity points), then slice B (mostly raw) shorter / as long /
+	// longer, then slice C no longer than the longest so far; every (group A, group B) pair
+	n := x.g.budget(3, 6)
+	for _, gA := range groups {
+		for _, gB := range groups {
+			for rel := -1; rel <= 1; rel++ {
+				nB := n + rel*(1+rg.intn(2))
+				gC := groups[rg.intn(len(groups))]
+				nC := 1 + rg.intn(n+1)
+				pa, pb, pc := x.nonInf(gA, n), x.nonInf(gB, nB), x.nonInf(gC, nC)
+				if rg.intn(3) == 0 {
+					pb[rg.intn(nB)] = c07Pt{inf: true}
+				}
+				var buf []byte
+				buf = append(buf, encS(gA, pickMode('c'), pa)...)
+				buf = append(buf, encS(gB, pickMode('r'), pb)...)
+				buf = append(buf, encS(gC, pickMode("rrc"[rg.intn(3)]), pc)...)
+				x.emitSdec(rg.intn(3) == 0, x.chunk(), slot([]string{sty(gA), sty(gB), sty(gC)}), buf)
+			}
+		}
+	}
+	// 2. random histories of 3..6 calls over all value types (point slices favoured, lengths 0..4), every segment written
+	// by its own Encoder in a random mode; the same items through ONE Encoder in each mode (senc)
+	all := x.types()
+	for rep := 0; rep < x.g.budget(4, 24); rep++ {
+		k := 3 + rg.intn(4)
+		var items, tys []string
+		var buf []byte
+		for i := 0; i < k; i++ {
+			var ty, it string
+			if rg.intn(5) < 3 {
+				g := groups[rg.intn(len(groups))]
+				ty = sty(g)
+				if c.fullTypes && rg.intn(4) == 0 {
+					ty += "p"
+				}
+				it = ty + ":" + c07ShowPts(x.pts(g, rg.intn(5)))
+			} else {
+				ty = all[rg.intn(len(all))]
+				it = x.item(ty, true)
+			}
+			items, tys = append(items, it), append(tys, ty)
+			buf = append(buf, x.encode(rg.coin(), []string{it})...)
+		}
+		for _, raw := range []bool{false, true} {
+			x.g.emit("C07 senc %s %s %s", c.name, boolStr(raw), strings.Join(items, " "))
+		}
+		x.emitSdec(rg.intn(4) == 0, x.chunk(), slot(tys), buf)
 	}
 }
 
